@@ -92,6 +92,8 @@ pub struct Decl {
   pub body_refs: Vec<(usize, usize)>,
   /// files whose whole namespace object the signature names (`typeof ns`)
   pub ns_refs: Vec<usize>,
+  /// changes implementation text only (C12 body edits)
+  pub salt: u32,
   pub dirty: Option<Dirty>,
   /// small variation selector for rendering
   pub variant: u32,
@@ -126,6 +128,8 @@ pub struct Pkg {
   pub files: Vec<PFile>,
   /// export key -> file index
   pub exports: Vec<(String, usize)>,
+  /// raw statements appended to a file (cross-package links of C12 worlds)
+  pub extra: BTreeMap<usize, Vec<String>>,
 }
 
 pub fn file_url(p: &Pkg, f: usize) -> String {
@@ -156,6 +160,8 @@ pub fn gen_pkg(rng: &mut Rng, name: &str, n_files: usize, dirty: bool) -> Pkg {
     DK::DeclareFunction,
     DK::CompositeConst,
   ];
+  // declaration names are unique across the packages of one world
+  let tag = if name == "@s/pkg" { String::new() } else { name.chars().last().map(|c| c.to_string()).unwrap_or_default() };
   let mut files: Vec<PFile> = vec![];
   let mut counter = 0;
   for fi in 0..n_files {
@@ -173,7 +179,7 @@ pub fn gen_pkg(rng: &mut Rng, name: &str, n_files: usize, dirty: bool) -> Pkg {
       let exported = rng.chance(3, 5);
       decls.push(Decl {
         name: format!(
-          "{}{}",
+          "{}{}{}",
           match kind {
             DK::Function | DK::OverloadedFunction | DK::DeclareFunction => "fn",
             DK::Class | DK::AbstractClass => "Cls",
@@ -184,7 +190,8 @@ pub fn gen_pkg(rng: &mut Rng, name: &str, n_files: usize, dirty: bool) -> Pkg {
             DK::ArrowConst | DK::FunctionExprConst => "fun",
             DK::Namespace => "Ns",
           },
-          counter
+          counter,
+          tag
         ),
         kind,
         exported,
@@ -192,6 +199,7 @@ pub fn gen_pkg(rng: &mut Rng, name: &str, n_files: usize, dirty: bool) -> Pkg {
         sig_refs: vec![],
         body_refs: vec![],
         ns_refs: vec![],
+        salt: 0,
         dirty: None,
         variant: rng.next() as u32,
       });
@@ -313,6 +321,7 @@ pub fn gen_pkg(rng: &mut Rng, name: &str, n_files: usize, dirty: bool) -> Pkg {
     version: "1.0.0".to_string(),
     files,
     exports,
+    extra: BTreeMap::new(),
   };
   if dirty {
     // spoil one declaration of the public API
@@ -641,6 +650,7 @@ pub fn render_file(p: &Pkg, f: usize) -> String {
         }
       })
       .collect();
+    let body_use = if d.salt != 0 { format!("{}  console.log({});\n", body_use, d.salt) } else { body_use };
     let ex = if d.default_export {
       "export default "
     } else if d.exported {
@@ -952,6 +962,34 @@ pub fn render_file(p: &Pkg, f: usize) -> String {
         ns,
         rel_path(&file.path, &p.files[*from].path)
       )),
+    }
+  }
+  if let Some(lines) = p.extra.get(&f) {
+    for l in lines {
+      out.push_str(l);
+      out.push('\n');
+    }
+  }
+  out
+}
+
+/// files that carry part of the public API: entrypoints, files on a
+/// re-export path from them, files with a public declaration
+pub fn public_files(p: &Pkg) -> BTreeSet<usize> {
+  let mut out: BTreeSet<usize> = public_set(p).into_iter().map(|(f, _)| f).collect();
+  let mut work: Vec<usize> = p.exports.iter().map(|(_, f)| *f).collect();
+  let mut seen = BTreeSet::new();
+  while let Some(f) = work.pop() {
+    if !seen.insert(f) {
+      continue;
+    }
+    out.insert(f);
+    for r in &p.files[f].reexports {
+      match r {
+        ReExport::Star { from } | ReExport::StarAs { from, .. } => work.push(*from),
+        // only the named declaration becomes public (already in `out`)
+        ReExport::Named { .. } => {}
+      }
     }
   }
   out
